@@ -30,7 +30,10 @@ pub fn run(ctx: &Ctx) -> bool {
         "C05" => c05::run(ctx),
         "C06" => c06::run(ctx),
         "C07" => c07::run(ctx),
-        "C08" => c08::run(ctx),
+        "C08" => {
+            c08::run(ctx);
+            c08::fuzz(ctx)
+        }
         "C09" => c09::run(ctx),
         "C10" => c10::run(ctx),
         "C11" => c11::run(ctx),
@@ -39,7 +42,10 @@ pub fn run(ctx: &Ctx) -> bool {
         "C14" => c14::run(ctx),
         "C15" => c15::run(ctx),
         "C16" => c16::run(ctx),
-        "C17" => c17::run(ctx),
+        "C17" => {
+            c17::run(ctx);
+            c17::fuzz(ctx)
+        }
         "C18" => c18::run(ctx),
         "C19" => c19::run(ctx),
         "C20" => c20::run(ctx),
